@@ -50,6 +50,25 @@ def insertSorted (h : Host) : List Host → List Host
 
 def hostSet (hs : List Host) : List Host := hs.foldl (fun acc h => insertSorted h acc) []
 
+/-- one `--cpu-bind list:` entry: `a-b` or `c1,c2,..` -/
+inductive Bind where
+  | range (a b : Nat)
+  | list (cs : List Nat)
+deriving DecidableEq, Repr
+
+/-- the cores an entry names -/
+def Bind.cores : Bind → List Nat
+  | .range a b => List.range' a (b + 1 - a)
+  | .list cs   => cs
+
+/-- a run `a, a+1, .., b` is written `a-b`, a single core as itself, anything else core by core -/
+def bindEntry (cores : List Nat) : Bind :=
+  match cores with
+  | []      => .list []
+  | [c]     => .list [c]
+  | c :: cs => if c :: cs = List.range' c ((c :: cs).getLastD c + 1 - c) then .range c ((c :: cs).getLastD c)
+               else .list (c :: cs)
+
 inductive Cmd where
   | fork
   /-- `[ccmrun] mpirun [h1,h2,..] [-gpu] -np N [dplace -c ..] [-host h1,.. | -hostfile F | -file F]` -/
@@ -57,9 +76,9 @@ inductive Cmd where
            (dplace : Option (List Nat)) (mpt : Bool)
   /-- `mpiexec -np N [-rf F | --ppn P --cpu-bind list:.. --hostfile F | -f F | --hostfile F]` -/
   | mpiexec (np : Nat) (rankfile : Option (List (Host × List Nat))) (hostfile : Option (List (Host × Nat)))
-            (ppn : Option Nat) (cpuBind : List (Nat × Nat))
+            (ppn : Option Nat) (cpuBind : List Bind)
   /-- `srun --nodes N --ntasks T --cpus-per-task C [--nodelist=.. | --nodefile=F]` -/
-  | srun (nodes ntasks cpt : Nat) (nodelist : List Host) (viaFile : Bool) (gpusPerTask : Nat)
+  | srun (nodes : Option Nat) (ntasks cpt : Nat) (nodelist : List Host) (viaFile : Bool)
   | aprun (n d : Nat)
   | ccmrun (n : Nat)
   /-- `IBRUN_TASKS_PER_NODE=k ibrun -n N -o OFFSET` -/
@@ -68,7 +87,7 @@ inductive Cmd where
   | prte (np pe : Nat) (hosts : List (Host × Nat))
   | ssh (host : Host)
   | rsh (host : Host)
-deriving Repr
+deriving DecidableEq, Repr
 
 /-! ### command construction -/
 
@@ -77,6 +96,9 @@ structure MpirunCfg where
   dplace : Bool      -- '_dplace' in self.name
   spectrum : Bool    -- mpi flavor is Spectrum MPI
 deriving Repr
+
+/-- `dplace -c c0,c1,..`: the first core of every rank -/
+def dplaceCores (t : Task) : List Nat := t.slots.filterMap (fun s => s.cores.head?)
 
 def cmdMpirun (c : MpirunCfg) (t : Task) : Except Err Cmd :=
   if c.dplace ∧ t.cpr > 1 then .error .value          -- 'dplace can not place threads'
@@ -88,7 +110,7 @@ def cmdMpirun (c : MpirunCfg) (t : Task) : Except Err Cmd :=
                    (if c.mpt ∧ (hostsOf t).length ≤ 42 then hostsOf t else [])
                    (if ¬ c.mpt ∧ (hostsOf t).length ≤ 42 then hostsOf t else [])
                    (if (hostsOf t).length > 42 then some (hostsOf t) else none)
-                   (if c.dplace then some (t.slots.filterMap (fun s => s.cores.head?)) else none)
+                   (if c.dplace then some (dplaceCores t) else none)
                    c.mpt)
 
 structure MpiexecCfg where
@@ -102,31 +124,26 @@ def cmdMpiexec (c : MpiexecCfg) (t : Task) : Except Err Cmd :=
   else if c.useRf then
     .ok (.mpiexec t.slots.length (some (t.slots.map (fun s => (s.host, s.cores)))) none none [])
   else if c.pals then
-    if t.slots.any (fun s => s.cores = []) then .error .runtime
-    else
       .ok (.mpiexec t.slots.length none (some ((countHosts (hostsOf t) []).map (fun e => (e.1, 0))))
              (some ((countHosts (hostsOf t) []).foldl (fun m e => max m e.2) 0))
-             (t.slots.map (fun s => (s.cores.headD 0, s.cores.getLastD 0))))
+             (t.slots.map (fun s => bindEntry s.cores)))
   else
     .ok (.mpiexec t.slots.length none (some (countHosts (hostsOf t) [])) none [])
 
 structure SrunCfg where
   vmajor   : Nat
   traverse : Bool
-  reqGpus  : Bool       -- rm_info.requested_gpus is truthy
-  cpn      : Nat
+  cpn      : Nat        -- rm_info.cores_per_node (> 0)
 deriving Repr
 
-def cmdSrun (c : SrunCfg) (t : Task) (gpr : Nat) : Except Err Cmd :=
+/-- `--nodes` is the number of distinct nodes of the placement, `--ntasks` the number of slots;
+    without a placement the task's own rank count and a node count derived from it -/
+def cmdSrun (c : SrunCfg) (t : Task) : Cmd :=
   if t.slots = [] then
-    .ok (.srun ((t.ranks + (if c.cpn = 0 then 1 else c.cpn) - 1) / (if c.cpn = 0 then 1 else c.cpn)) t.ranks t.cpr [] false
-          (if c.reqGpus then gpr else 0))
+    .srun (if c.traverse then none else some ((t.ranks + c.cpn - 1) / c.cpn)) t.ranks t.cpr [] false
   else
-    .ok (.srun (hostSet (hostsOf t)).length t.slots.length t.cpr (hostSet (hostsOf t))
-          (decide (c.vmajor > 18 ∧ (hostSet (hostsOf t)).length > 42))
-          (if c.reqGpus then (match t.slots.head? with
-                              | some s => if s.gpus ≠ [] then s.gpus.length else gpr
-                              | none   => gpr) else 0))
+    .srun (if c.traverse then none else some (hostSet (hostsOf t)).length) t.slots.length t.cpr
+          (hostSet (hostsOf t)) (decide (c.vmajor > 18 ∧ (hostSet (hostsOf t)).length > 42))
 
 structure IbrunCfg where
   tpnOpt : Nat            -- options.tasks_per_node, 0 = unset
@@ -134,26 +151,27 @@ structure IbrunCfg where
   nodeIdx : List Nat      -- indices of rm_info.node_list, in order
 deriving Repr
 
-/-- tasks before the first used node, in RM node-list order -/
-def ibrunOffset (tpn : Nat) (used : List Nat) : List Nat → Nat → Option Nat
+/-- walk the RM node list: `(tasks before the first used node, that node)` -/
+def ibrunFirst (tpn : Nat) (used : List Nat) : List Nat → Nat → Option (Nat × Nat)
   | [],      _   => none
-  | n :: ns, acc => if n ∈ used then some acc else ibrunOffset tpn used ns (acc + tpn)
+  | n :: ns, acc => if n ∈ used then some (acc, n) else ibrunFirst tpn used ns (acc + tpn)
+
+def listMin : List Nat → Nat
+  | []      => 0
+  | x :: xs => xs.foldl min x
 
 def cmdIbrun (c : IbrunCfg) (t : Task) : Except Err Cmd :=
   if t.slots = [] then .error .assertion
-  else if t.slots.any (fun s => s.cores = []) then .error .runtime
   else
     (fun (tpn : Nat) =>
-      match ibrunOffset tpn (t.slots.map (·.nodeIndex)) c.nodeIdx 0 with
-      | none      => .ok (.ibrun tpn t.ranks 0)
-      | some base =>
-        -- first used node in node-list order; minimal first core of the slots on it
-        (fun (first : Nat) =>
+      match ibrunFirst tpn (t.slots.map (·.nodeIndex)) c.nodeIdx 0 with
+      | none => .ok (.ibrun tpn t.ranks 0)
+      | some (base, first) =>
+        -- the ranks on the first used node: the smallest first core, in units of ranks
+        if (t.slots.filter (fun s => s.nodeIndex = first)).any (fun s => s.cores = []) then .error .runtime
+        else
           .ok (.ibrun tpn t.ranks
-                 (base + ((t.slots.filter (fun s => s.nodeIndex = first)).map (fun s => s.cores.headD 0)).foldl min
-                            ((t.slots.filter (fun s => s.nodeIndex = first)).map (fun s => s.cores.headD 0)).head!
-                         / (if t.cpr = 0 then 1 else t.cpr))))
-          ((c.nodeIdx.filter (fun n => n ∈ t.slots.map (·.nodeIndex))).headD 0))
+                (base + listMin ((t.slots.filter (fun s => s.nodeIndex = first)).map (fun s => s.cores.headD 0)) / t.cpr)))
       (if c.tpnOpt ≠ 0 then c.tpnOpt
        else if c.cpn / (t.ranks * t.cpr) = 0 then 1 else c.cpn / (t.ranks * t.cpr))
 
@@ -205,12 +223,18 @@ def procsOn : Cmd → Host → Option Nat
   | .rsh host, h => some (if host = h then 1 else 0)
   | _, _ => none
 
+/-- PALS `mpiexec --ppn P -np N --hostfile F`: the hosts of F are filled in order, P ranks each
+    ("--ppn ... will place processes within the same node first", NOTE in mpiexec.py) -/
+def palsFill (ppn : Nat) : List Host → Nat → List (Host × Nat)
+  | [],      _  => []
+  | h :: hs, np => (h, min ppn np) :: palsFill ppn hs (np - min ppn np)
+
 /-- total number of processes started -/
 def procCount : Cmd → Nat
   | .fork => 1
   | .mpirun np mh _ hf _ mpt => if mpt then (mh ++ hf.getD []).length * np else np
   | .mpiexec np _ _ _ _ => np
-  | .srun _ nt _ _ _ _ => nt
+  | .srun _ nt _ _ _ => nt
   | .aprun n _ => n
   | .ccmrun n => n
   | .ibrun _ n _ => n
